@@ -1,8 +1,10 @@
 package pauditd
 
 import (
+	"encoding/json"
 	"errors"
 	"fmt"
+	"github.com/metal-toolbox/auditevent"
 	"strings"
 	"testing"
 	"testing/synctest"
@@ -376,6 +378,15 @@ func runC15(t *testing.T, run *mc.Run) int {
 			viol("bad-pid", nil, "LOGIN record with pid="+tok, badpid)
 		}
 	}
+	// an event the output cannot encode (a record stamped beyond year 9999: encoding/json refuses the time): that
+	// is an output write error like any other - the processor stops with it, whether the event is written directly
+	// or released from the hold queue among others (whether anything is written twice meanwhile is C10's business)
+	for _, loginIsLast := range []bool{false, true} {
+		n++
+		if _, stop := unencodableCell(t, loginIsLast); stop != "" {
+			viol("unencodable-event", nil, fmt.Sprintf("a record stamped in year 33658 (login last: %v)", loginIsLast), stop)
+		}
+	}
 	// two deliveries in flight at once: a one-shot write failure is reported by the parser goroutine while
 	// the Read goroutine is busy handing a login to the correlator (blocked on the tracker, not parked in its
 	// select). The failure must still stop the processor.
@@ -421,4 +432,57 @@ func runC15(t *testing.T, run *mc.Run) int {
 		Extra: map[string]any{"kernel_events": nev, "stream_shapes": len(shapes), "malformed_shapes": len(malformed)}}
 	cov.Assumptions = []string{"testing/synctest durable-blocking semantics and virtual clock", "events are observed through the real tracker with the session bound, i.e. at the output writer"}
 	return run.Finish(cov)
+}
+
+// unencodableCell: a session with an event the output cannot encode (a record stamped beyond year 9999) between
+// ordinary ones, the login first or last, further events of the session afterwards. Returns what is wrong with
+// the output (an event written twice) and what is wrong with the processor's reaction (it must stop with an error).
+func unencodableCell(t *testing.T, loginIsLast bool) (dup, stop string) {
+	bubble(t, func() {
+		r := startRead(0)
+		defer r.stop()
+		lg := mkLogin(bindPID, "1")
+		if !loginIsLast {
+			r.offerLogin(lg)
+		}
+		r.offerLine(bindLines("7") + "\n")
+		for i, sec := range []int64{1700000031, 999999999999, 1700000033, 1700000034} {
+			typ := []string{"USER_START", "USER_ACCT", "USER_END", "USER_AUTH"}[i]
+			if !r.offerLine(auditgen.Simple(typ, sec, 4001+i, "7", "4242", "success").Recs[0].Line + "\n") {
+				break
+			}
+		}
+		vsleep(3 * time.Second)
+		if loginIsLast {
+			r.offerLogin(lg)
+			vsleep(time.Second)
+		}
+		// the stream goes on for a moment (lines already in the pipeline when the processor gives up)
+		for i, typ := range []string{"USER_CMD", "USER_AUTH"} {
+			if !r.offerLine(auditgen.Simple(typ, 1700000040+int64(i), 4010+i, "7", "4242", "success").Recs[0].Line + "\n") {
+				break
+			}
+		}
+		vsleep(3 * time.Second)
+		seen := map[string]int{}
+		for _, wr := range r.w.writes {
+			seen[wr]++
+			if seen[wr] > 1 && dup == "" {
+				var acts []string
+				for _, x := range r.w.writes {
+					var e auditevent.AuditEvent
+					_ = json.Unmarshal([]byte(x), &e)
+					acts = append(acts, fmt.Sprint(e.Metadata.Extra["action"]))
+				}
+				dup = fmt.Sprintf("an event was written twice (writes in order: %v; processor returned=%v err=%v): %s", acts, r.returned, r.ret, short(wr, 100))
+			}
+		}
+		switch {
+		case !r.returned:
+			stop = "the audit processor keeps running after an event that the output could not encode"
+		case r.ret == nil:
+			stop = "the audit processor returned nil after an event that the output could not encode"
+		}
+	})
+	return dup, stop
 }
